@@ -22,7 +22,7 @@ from engine.shape import key, args, pkey, origin, for_loop, full_component_loop,
 
 UNITS = [src('base', 'src', 'StateSpace.cpp'), src('base', 'src', 'StateStorage.cpp'),
          src('base', 'src', 'PlannerDataStorage.cpp'), src('control', 'src', 'PlannerDataStorage.cpp'),
-         src('base', 'src', 'PlannerData.cpp'), src('base', 'spaces', 'src', 'WrapperStateSpace.cpp'),
+         src('base', 'src', 'PlannerData.cpp'), src('control', 'src', 'PlannerData.cpp'), src('base', 'spaces', 'src', 'WrapperStateSpace.cpp'),
          os.path.join(facts.INST, 'storage.cpp'), os.path.join(facts.INST, 'scoped.cpp')]
 
 
@@ -752,6 +752,44 @@ def r09m(rep, F):
     rep.require_count('R09m', 'PlannerData members written by mutators', n, 4)
 
 
+def r09n(rep, F):
+    rep.rule('R09n', 'decoupleFromPlanner() re-keys the state index: for a vertex whose state is replaced by a clone (vtx.state_ = clone) the key '
+                     'erased from stateIndexMap_ is the OLD state pointer, i.e. a value read from the vertex before the store (a local taken '
+                     'earlier), and the clone is entered under the vertex index.  An erase whose argument reads the vertex state after the store '
+                     'erases the clone\'s (not yet present) key: the old pointer stays in the map and, once its memory is reused, a state that '
+                     'was never added is reported as a vertex.  The control override copies every edge control: the edge loop is reached on '
+                     'every path (no early return before it)')
+    fn = F.one('ompl::base::PlannerData::decoupleFromPlanner')
+    stores = [x for x in fn.walk() if x['k'] == 'BinaryOperator' and x.get('op') == '=' and (fn.strip(x['ch'][0]) or {}).get('name') == 'state_']
+    erases = [c for c in fn.walk() if (c.get('callee') or '').endswith('::erase') and 'stateIndexMap_' in fn.fp(c['ch'][0])]
+    if len(stores) != 1 or len(erases) != 1:
+        raise AnalysisBroken('R09n: store of the clone / erase of the old key not found in decoupleFromPlanner')
+    st, er = stores[0], erases[0]
+    arg = fn.strip(args(fn, er)[0])
+    ok = False
+    why = 'the erased key is not a local taken before the store'
+    if arg is not None and arg['k'] == 'DeclRefExpr' and arg.get('dk') == 'Local':
+        k = '%s#%d' % (arg['name'], arg['did'])
+        decl = [x for x in fn.walk() if x['k'] == 'DeclStmt' and any('%s#%d' % (d['name'], d['did']) == k for d in x.get('decls', []))]
+        ok = bool(decl) and fn.line(decl[0]) < fn.line(st) and 'getState' in fn.fp(decl[0]['id']) + ''.join(fn.fp(d['init']) for d in decl[0]['decls'] if d.get('init'))
+    elif arg is not None and fn.line(er) > fn.line(st) and any((x.get('callee') or '').endswith('::getState') or x.get('name') == 'state_' for x in fn.walk(arg['id'])):
+        why = 'the erased key is read from the vertex AFTER vtx.state_ was replaced by the clone: it is the clone, the old pointer stays in the map'
+    rep.add('R09n', fn.name, 'old-key-erased', ok, fn.where(er), 'erases the pointer saved before the store' if ok else why)
+    ins = [x for x in fn.walk() if (x['k'] == 'BinaryOperator' and x.get('op') == '=' or x['k'] == 'CXXOperatorCallExpr' and x.get('oop') == '=') and
+           'stateIndexMap_' in fn.fp(x['ch'][0]) and 'operator[]' in fn.fp(x['ch'][0])]
+    okk = bool(ins) and key(fn, ins[0]['ch'][-1]) is not None and fn.line(ins[0]) > fn.line(st)
+    rep.add('R09n', fn.name, 'clone-entered-under-index', okk, fn.where(ins[0]) if ins else fn.loc,
+            'stateIndexMap_[clone] = i' if okk else 'the clone is not entered into the state index under the vertex index')
+    cf = F.one('ompl::control::PlannerData::decoupleFromPlanner')
+    loops = [x for x in cf.walk() if x['k'] == 'ForStmt']
+    rets = [x for x in cf.walk() if x['k'] == 'ReturnStmt']
+    early = [r for r in rets if loops and cf.line(r) < cf.line(loops[0])]
+    rep.add('R09n', cf.name, 'edge-loop-on-every-path', bool(loops) and not early, cf.where(early[0]) if early else cf.loc,
+            'every call scans the edges and clones the controls that are not decoupled yet' if loops and not early else
+            'an early return skips the loop that clones the edge controls: edges added after an earlier decoupling keep pointing at '
+            'planner / caller memory')
+
+
 def run(rep):
     F = facts.load_units(UNITS)
     rep.units.update(UNITS)
@@ -769,3 +807,4 @@ def run(rep):
     r09k(rep, F)
     r09l(rep, F)
     r09m(rep, F)
+    r09n(rep, F)
